@@ -128,11 +128,11 @@ def run(tier: str, seed: int, reg: Any, jobs: int = 16) -> list:
                     fails2.append({"inputs": {"family": fam, "area": cls.__name__}, "detail": f"{type(e).__name__}: {str(e)[:150]}", "obligation": "area-roundtrip"})
     out.append({"name": "PFR CMPA/CFPA of every family: size, parse/export identity, binary-config-binary with seeded values", "function": "spsdk.pfr.pfr",
                 "method": "every family of the live database", "bound": f"{n} areas", "cases": max(n, 1), "exhaustive": True, "label": "bounded", "failures": fails2[:12]})
-    out.append(_xmcd())
+    out.append(_xmcd(tier))
     return out
 
 
-def _xmcd() -> dict:
+def _xmcd(tier: str = "thorough") -> dict:
     """XMCD blocks of every (family, memory, configuration type): the header word, decoded by hand, announces exactly the exported length -
     for the generated template, for a configuration whose size field is wrong, and (where the block has an option-size field) for the
     one-word variant with a stale or omitted size; the area's verifier and parser accept the export and parse->export is the identity."""
@@ -167,9 +167,14 @@ def _xmcd() -> dict:
                           "detail": "; ".join(problems), "obligation": "xmcd-header-announces-the-exported-length"})
         return b
 
+    seen_kinds: set = set()
     for family in XMCD.get_supported_families():
         for mem_type in XMCD.get_supported_memory_types(family):
             for cfg_type in XMCD.get_supported_configuration_types(family, mem_type):
+                if tier == "quick":          # quick: one family per (memory type, configuration type); thorough: every family
+                    if (str(mem_type), str(cfg_type)) in seen_kinds:
+                        continue
+                    seen_kinds.add((str(mem_type), str(cfg_type)))
                 try:
                     base = yaml.safe_load(XMCD.generate_config_template(family, mem_type, cfg_type))
                     ref = check(family, "template", base)
@@ -188,5 +193,5 @@ def _xmcd() -> dict:
                         fails.append({"inputs": {"family": family, "mem_type": str(mem_type), "config_type": str(cfg_type)}, "detail": f"{type(e).__name__}: {e}",
                                       "obligation": "xmcd-header-announces-the-exported-length"})
     return {"name": "XMCD header size field against the exported block", "function": "spsdk.image.xmcd.xmcd:XMCD.load_from_config/export/parse",
-            "method": "every (family, memory type, configuration type) of the live database; template, wrong size, stale size, omitted size", "bound": f"{n} configurations",
-            "cases": max(n, 1), "exhaustive": True, "label": "bounded", "failures": fails}
+            "method": ("every" if tier != "quick" else "one family per") + " (memory type, configuration type) of the live database; template, wrong size, stale size, omitted size", "bound": f"{n} configurations",
+            "cases": max(n, 1), "exhaustive": tier != "quick", "label": "bounded", "failures": fails}
